@@ -22,7 +22,8 @@ class PlainIO(ioseq.IOHooks):
     """property-object terms as in ioseq, but no inlining and no pruning of NULL tests"""
 
     def want_inline(self, ex, callee, node):
-        return False
+        # (file-local static helpers are part of the function that calls them: a shared "read the section and test its title")
+        return bool(callee.get("static")) and not callee.get("record") and ex.depth < 6
 
     def decide(self, ex, cond):
         return Hooks.decide(self, ex, cond)
@@ -168,7 +169,18 @@ def run(chk):
         chk.require(not dup, "R1", "type tags are pairwise distinct", where="include/tfhe_generic_streams.h",
                     ok="%d distinct tags" % len(tags), bad="shared values: %s" % dup, variant=vn)
         # ---------------- R2 titles, R4 null result
-        consumers = [f for f in v.defined() if any(c.get("callee") == parser for c in calls_in(f.d.get("body")))]
+        # the functions that obtain a section object from the parser, directly or through file-local static helpers (which are
+        # analysed as part of their callers)
+        via = {parser}
+        grew = True
+        while grew:
+            grew = False
+            for f_ in v.defined():
+                if f_.get("static") and not f_.get("record") and f_.d["q"] not in via and \
+                        any(c.get("callee") in via for c in calls_in(f_.d.get("body"))):
+                    via.add(f_.d["q"])
+                    grew = True
+        consumers = [f for f in v.defined() if f.d["q"] not in via and any(c.get("callee") in via for c in calls_in(f.d.get("body")))]
         chk.set_count("R2.section_readers", len(consumers))
         pf = v.fn(parser)
         peff, _, _ = run_function(v, pf, hooks=Hooks())
@@ -205,7 +217,9 @@ def run(chk):
                             if not guarded and st8["null"] is None:
                                 st8["null"] = (st8["first_use"] is None, x["l"])
                             guarded = True
-                    elif x["e"] in ("loop", "while", "inlined"):
+                    elif x["e"] == "inlined":
+                        guarded = scan(x["body"], guarded)      # what a file-local helper established holds after the call
+                    elif x["e"] in ("loop", "while"):
                         scan(x["body"], guarded)
                 return guarded
 
